@@ -101,6 +101,11 @@ def _r6(rep, prog):
                                 work.append(op_local(o))
         if discr >= 2:
             bad = bi
+    # totality: the sort sites `.expect()` the result; a float comparison that can answer None (NaN) must not be a result
+    partial_f = [bi for bi, t in b.calls() if (t.get("res") or t.get("f") or "").endswith("impl core::cmp::PartialOrd for f64>::partial_cmp")]
+    rep.check(not partial_f, R, "Key::partial_cmp is total on float keys", "no f64::partial_cmp among its results (total_cmp)",
+              "<Key as PartialOrd>::partial_cmp compares two F64 keys with f64::partial_cmp, which answers None for NaN: the terms aggregation sorts its buckets with `.partial_cmp(..).expect(..)`, so a NaN value in an f64 "
+              "column makes `order: {_key: ..}` panic (and mixed-type pairs, compared with total_cmp, disagree with same-type pairs)", site=site(b, partial_f[0]) if partial_f else b.span)
     rep.check(bad is None, R, "Key::partial_cmp does not order numeric keys by their variant", "no result is the comparison of the two discriminants",
               "<Key as PartialOrd>::partial_cmp (derived) answers with the comparison of the two enum discriminants when the operands are of different variants: the keys -2.5, -1, 0.5, 2, 3.5, 4 of a terms aggregation on an "
               "f64 column, `order: {_key: asc}`, come out as -1, 2, 4, -2.5, 0.5, 3.5, and with `size: 2` the wrong SET of buckets (-1, 2) is returned", site=site(b, bad) if bad is not None else b.span)
